@@ -714,6 +714,59 @@ def getCodeHash (s : ADB) (a : Addr) : ADB × Hash :=
 
 def getLogs (s : ADB) (th : Hash) : List LogRec := (mget s.logs th).getD []
 
+/-- `CanTransfer(addr, amount)` for a non-negative amount: `GetBalance(addr) >= amount` -/
+def canTransfer (c : Cfg) (s : ADB) (a : Addr) (n : Nat) : ADB × Bool :=
+  let r := getBalance c s a; (r.1, decide (r.2 ≥ n))
+
+/-- `IsContract(addr)`: `GetCode` is non-nil and non-empty -/
+def isContract (s : ADB) (a : Addr) : ADB × Bool :=
+  let r := getCode s a; (r.1, !r.2.isEmpty)
+
+/-- `GetState(addr, hash)`: `GetData` through `common.BytesToHash` -/
+def getState (s : ADB) (a : Addr) (k : Key) : ADB × Hash :=
+  let r := getData s a k; (r.1, toHash r.2)
+
+/-- `common.BytesToAddress` (`Address.SetBytes`): longer input is cropped from the left to 20 bytes, shorter input
+    is copied to the FRONT, i.e. right-padded with zeros (unlike `BytesToHash`, which left-pads) -/
+def toAddr (b : Bytes) : Addr :=
+  if b.length > 20 then b.drop (b.length - 20) else b ++ List.replicate (20 - b.length) 0
+
+/-- `SetStorage(addr, map)` ("debugging only"): `getOrNewAccountObject`, then `SetData` per entry. The Go map is
+    iterated in arbitrary order; the entries have distinct keys, so every order gives the same object and the same
+    number of journal entries (`kvs` is the map in some order). A nil object is dereferenced only if there is an entry. -/
+def setStorage (s : ADB) (a : Addr) (kvs : List (Key × Val)) : ADB :=
+  if s.crashed then s else
+  match resolveNew s a with
+  | (s1, none) => if kvs.isEmpty then s1 else crash s1
+  | (s1, some _) => kvs.foldl (fun acc p => setDataJ acc a p.1 p.2) s1
+
+/-- `getAllRefund`'s cache fill: every slot of the storage trie that is not cached yet is copied into `cachedStorage` -/
+def Obj.cacheAll (o : Obj) : Obj :=
+  { o with cached := o.strie.foldl (fun c p => if (mget c p.1).isSome then c else mset c p.1 p.2) o.cached }
+
+/-- `GetAllRefund(addr)`: `getOrNewAccountObject` (may journal a creation, nil is dereferenced), then the map
+    key-as-address ↦ value-as-integer over the cached slots and the storage-trie slots not cached (later entries of the
+    list overwrite earlier ones with the same address, as map assignment does) -/
+def getAllRefund (s : ADB) (a : Addr) : ADB × List (Addr × Nat) :=
+  if s.crashed then (s, []) else
+  match resolveNew s a with
+  | (s1, none) => (crash s1, [])
+  | (s1, some o) =>
+    let o1 := o.cacheAll
+    (putObj s1 a o1, o1.cached.foldl (fun r p => mset r (toAddr p.1) (beToNat p.2)) [])
+
+/-- `utility.UInt64ToByte`: 8 bytes big endian -/
+def u64BE (n : Nat) : Bytes := padLeft 8 (natToBE (n % U64))
+
+/-- `AddERC20Binding(name, contract, position, decimal)`; `bind` = `GenerateERC20Binding(name)` (a SHA-256 image:
+    parameter). The three writes are ordinary journaled `SetData`s. -/
+def addERC20Binding (s : ADB) (bind contract : Addr) (pos dec : Nat) : ADB × Bool :=
+  if s.crashed then (s, false) else
+  match exist s bind with
+  | (s1, true) => (s1, false)
+  | (s1, false) =>
+    (setData (setData (setData s1 bind [0x63] contract) bind [0x70] (u64BE pos)) bind [0x64] (u64BE dec), true)
+
 /-! ## pure views used by the theorems (what a query would answer, without the caching) -/
 
 inductive Res where
@@ -807,6 +860,9 @@ inductive Op where
   | qCodeSize (a : Addr)
   | qCodeHash (a : Addr)
   | qFT (a : Addr) (k : Key)
+  | setStorage (a : Addr) (kvs : List (Key × Val))
+  | qAllRefund (a : Addr)
+  | addBinding (bind contract : Addr) (pos dec : Nat)
 deriving DecidableEq, Repr
 
 /-- state transformer of an op (the answer is computed by the driver from the same functions) -/
@@ -843,6 +899,9 @@ def step (c : Cfg) (s : ADB) : Op → ADB
   | .qCodeSize a => (getCodeSize s a).1
   | .qCodeHash a => (getCodeHash s a).1
   | .qFT a k => (getFT s a k).1
+  | .setStorage a kvs => setStorage s a kvs
+  | .qAllRefund a => (getAllRefund s a).1
+  | .addBinding b ct p d => (addERC20Binding s b ct p d).1
 
 def run (c : Cfg) (s : ADB) (ops : List Op) : ADB := ops.foldl (step c) s
 
